@@ -16,6 +16,9 @@ def make_table(rng, n_mut, n_samples, depth=(20, 400), tumour_content=True, erro
     ccf = rng.dirichlet(np.ones(n_clones), size=n_samples)  # crude: per-sample prevalences
     for m in range(n_mut):
         mid = ("mut_%s%d" % ("abcdefgh"[m % 8], m)) if string_ids else m
+        if string_ids and n_mut >= 3 and m in (1, 2):
+            # identifiers are free text: a name that spells a missing-value token, characters that mean something to parsers
+            mid = ["NA", "chr2:1200#2"][m - 1]
         clone = int(rng.integers(0, n_clones))
         for si, s in enumerate(samples):
             if cn_variety:
